@@ -2,6 +2,8 @@ package main
 
 import (
 	"fmt"
+	"regexp"
+	"strconv"
 	"go/token"
 	"go/types"
 	"sort"
@@ -19,6 +21,8 @@ type Val struct {
 	Clo  *Closure
 	Prov *Prov
 	FreshArr bool // slice whose backing array was allocated in this run (never an entry-state array)
+	ArrBack  Addr  // slice made by slicing an addressable array in full: address of that array
+	ArrLen   int64
 }
 
 // Closure is a statically known closure value.
@@ -57,7 +61,9 @@ type IndexOf struct {
 }
 type ElemOf struct {
 	Arr   string
-	Idx   string
+	Off   string // slice offset
+	I     string // index relative to the slice
+	Idx   string // Off + I
 	Elem  types.Type
 	Fresh bool
 }
@@ -123,6 +129,8 @@ type iterInfo struct {
 	mapVal  Val
 	mapType *types.Map
 	visited cellKey
+	count   cellKey
+	domAt   string // domain heap version when the iteration started
 	isStr   bool
 }
 
@@ -176,6 +184,9 @@ type FuncRun struct {
 	allocTop string
 	scoutingHead *ssa.BasicBlock
 	backStates []*State
+	assumedOrder []string
+	addrLog    map[string][]addrWrite
+	cellLog    map[cellKey][]Val
 	spawned *WriteSet
 	sharedAtomics bool
 	stats map[string]int
@@ -195,6 +206,29 @@ type mutexRef struct {
 }
 
 func (fr *FuncRun) emit(line string) { fr.lines = append(fr.lines, line) }
+
+// once reports whether the ground axiom identified by key still has to be emitted.
+func (fr *FuncRun) once(key string) bool {
+	if fr.assumed[key] {
+		return false
+	}
+	fr.assumed[key] = true
+	fr.assumedOrder = append(fr.assumedOrder, key)
+	return true
+}
+
+type runMark struct{ lines, keys int }
+
+func (fr *FuncRun) mark() runMark { return runMark{len(fr.lines), len(fr.assumedOrder)} }
+
+// rollback discards everything emitted since the mark (used after scouting passes).
+func (fr *FuncRun) rollback(m runMark) {
+	fr.lines = fr.lines[:m.lines]
+	for _, k := range fr.assumedOrder[m.keys:] {
+		delete(fr.assumed, k)
+	}
+	fr.assumedOrder = fr.assumedOrder[:m.keys]
+}
 
 func (fr *FuncRun) freshName(hint string) string {
 	fr.nfresh++
@@ -335,6 +369,12 @@ func (fr *FuncRun) noteCellWrite(k cellKey) {
 	}
 }
 
+func (fr *FuncRun) logCellStore(k cellKey, v Val) {
+	if fr.cellLog != nil && v.S == sSlice {
+		fr.cellLog[k] = append(fr.cellLog[k], v)
+	}
+}
+
 // heap access --------------------------------------------------------------
 
 func (fr *FuncRun) heapCur(st *State, h string) string {
@@ -348,12 +388,86 @@ func (fr *FuncRun) heapSet(st *State, h, term string) {
 	sort := fr.w.heapSorts[h]
 	st.heaps[h] = fr.defAlways(sort, term, h)
 	fr.noteHeapWrite(h)
+	if fr.addrLog != nil {
+		fr.addrLog[h] = append(fr.addrLog[h], addrWrite{term: storeAddr(term), fresh: fr.curWriteFresh})
+	}
+}
+
+type addrWrite struct {
+	term  string
+	fresh bool
+}
+
+// storeAddr extracts the index of the outermost (store H idx val) term.
+func storeAddr(term string) string {
+	if !strings.HasPrefix(term, "(store ") {
+		return "?"
+	}
+	i := len("(store ")
+	// skip the heap argument
+	i = skipSexp(term, i)
+	for i < len(term) && term[i] == ' ' {
+		i++
+	}
+	j := skipSexp(term, i)
+	return term[i:j]
+}
+
+func skipSexp(s string, i int) int {
+	if i >= len(s) {
+		return i
+	}
+	if s[i] != '(' {
+		for i < len(s) && s[i] != ' ' && s[i] != ')' {
+			i++
+		}
+		return i
+	}
+	d := 0
+	for ; i < len(s); i++ {
+		if s[i] == '(' {
+			d++
+		} else if s[i] == ')' {
+			d--
+			if d == 0 {
+				return i + 1
+			}
+		}
+	}
+	return i
+}
+
+var suffixRe = regexp.MustCompile(`_(\d+)\b`)
+
+// invariantTerm: every generated name in the term was created before the marker.
+func invariantTerm(term string, marker int) bool {
+	if term == "?" || hasBound(term) {
+		return false
+	}
+	for _, m := range suffixRe.FindAllStringSubmatch(term, -1) {
+		n, _ := strconv.Atoi(m[1])
+		if n > marker {
+			return false
+		}
+	}
+	return true
+}
+
+// freshHeap introduces an unconstrained version of heap h that is well-formed.
+func (fr *FuncRun) freshHeap(h string) string {
+	v := fr.fresh(fr.w.heapSorts[h], h)
+	for _, ax := range fr.w.HeapWF(h, v, fr.allocTop) {
+		fr.emit(ax)
+	}
+	return v
 }
 
 func (fr *FuncRun) heapHavoc(st *State, h string) {
-	sort := fr.w.heapSorts[h]
-	st.heaps[h] = fr.fresh(sort, h)
+	st.heaps[h] = fr.freshHeap(h)
 	fr.noteHeapWrite(h)
+	if fr.addrLog != nil {
+		fr.addrLog[h] = append(fr.addrLog[h], addrWrite{term: "?", fresh: false})
+	}
 }
 
 func sel(a, i string) string        { return "(select " + a + " " + i + ")" }
